@@ -106,4 +106,21 @@ Fixpoint queue_run (evs : list event) (q : qstate) : option qstate :=
 
 Definition queue_ok (evs : list event) : Prop := queue_run evs QIdle <> None.
 
+(** C15: the connection is closed by check_max_bad_commands() exactly when more than
+    MAXBADCMDS + 1 commands in a row were bad: every bad command below that is answered
+    and the session goes on; the counter restarts with every good command *)
+Definition bad_step (e : event) (c : nat) : option nat :=
+  match e with
+  | Note NBad => if Nat.leb c MAXBADCMDS then Some (S c) else None
+  | Note NBadReset => Some 0
+  | Note NBadClose => if Nat.ltb MAXBADCMDS c then Some c else None
+  | _ => Some c
+  end.
+Fixpoint bad_run (evs : list event) (c : nat) : option nat :=
+  match evs with
+  | [] => Some c
+  | e :: r => match bad_step e c with Some c' => bad_run r c' | None => None end
+  end.
+Definition bad_ok (evs : list event) : Prop := bad_run evs 0 <> None.
+
 End WithOracles.
